@@ -176,11 +176,16 @@ struct Case {
     optimize: bool,
     /// float outputs are multiplied by this and must then be (nearly) integers; None = integer operator
     fscale: Option<i64>,
+    /// variant: every tensor input of the node is an executor-owned intermediate produced by a
+    /// value-preserving node (so that operators with an in-place implementation take that path)
+    owned: bool,
+    /// producer used for owned inputs: 0 = Identity, 1 = Add(x, 0)
+    own_kind: u8,
 }
 
 impl Case {
     fn new(op: &'static str) -> Case {
-        Case { op, opset: 21, attrs: vec![], inputs: vec![], nout: 1, optimize: true, fscale: None }
+        Case { op, opset: 21, attrs: vec![], inputs: vec![], nout: 1, optimize: true, fscale: None, owned: false, own_kind: 0 }
     }
     fn attr_i(&mut self, name: &str, v: i64) {
         self.attrs.push(At { name: name.into(), v: AV::I(v), to_model: true, to_onnx: true });
@@ -254,6 +259,9 @@ impl Case {
             }
         }
         s += &format!(" @opset={} @dt={} @via={} @opt={}", self.opset, dts.join(""), vias.join(""), self.optimize as u8);
+        if self.owned {
+            s += &format!(" @own={}", if self.own_kind == 0 { "identity" } else { "addzero" });
+        }
         s
     }
 }
@@ -273,15 +281,56 @@ fn make_init(name: &str, t: &TIn) -> Tensor {
 }
 
 /// Build, load and run the single-node model. Ok(outputs as text) / Err(class).
-fn run_case(c: &Case) -> Result<Vec<(char, Vec<usize>, Vec<i64>)>, String> {
+fn run_case(c: &Case, ran_in_place: &mut Option<bool>) -> Result<Vec<(char, Vec<usize>, Vec<i64>)>, String> {
     let mut node_inputs: Vec<String> = vec![];
     let mut graph_inputs = vec![];
     let mut inits = vec![];
     let mut feeds: Vec<(String, RTensor<i32>)> = vec![];
     let mut ffeeds: Vec<(String, RTensor<f32>)> = vec![];
     let mut extra_attrs: Vec<(String, Attr)> = vec![];
+    let mut producers: Vec<Node> = vec![];
     for (k, i) in c.inputs.iter().enumerate() {
-        let name = format!("in{k}");
+        let mut name = format!("in{k}");
+        if c.owned {
+            if let Some(t) = i {
+                if matches!(t.via, Via::Run | Via::Init) {
+                    // in{k} = producer(src{k}): an intermediate value owned by the executor
+                    let src = format!("src{k}");
+                    if c.own_kind == 1 && t.dtype != dt::BOOL {
+                        let z = format!("zero{k}");
+                        inits.push(match t.dtype {
+                            dt::FLOAT => Tensor::f32s(&z, &[], &[0.0]),
+                            dt::INT64 => Tensor::i64s(&z, &[], &[0]),
+                            _ => Tensor::i32s(&z, &[], &[0]),
+                        });
+                        producers.push(Node::new("Add", &format!("p{k}"), &[&src, &z], &[&name]));
+                    } else {
+                        producers.push(Node::new("Identity", &format!("p{k}"), &[&src], &[&name]));
+                    }
+                    node_inputs.push(name.clone());
+                    name = src;
+                    match &t.via {
+                        Via::Run => {
+                            let dims: Vec<i64> = t.shape.iter().map(|&d| d as i64).collect();
+                            graph_inputs.push(ValueInfo::fixed(&name, t.dtype, &dims));
+                            if t.dtype == dt::FLOAT {
+                                ffeeds.push((
+                                    name.clone(),
+                                    RTensor::<f32>::from_data(&t.shape[..], t.data.iter().map(|&v| v as f32).collect::<Vec<_>>()),
+                                ));
+                            } else {
+                                feeds.push((
+                                    name.clone(),
+                                    RTensor::<i32>::from_data(&t.shape[..], t.data.iter().map(|&v| sat32(v)).collect::<Vec<_>>()),
+                                ));
+                            }
+                        }
+                        _ => inits.push(make_init(&name, t)),
+                    }
+                    continue;
+                }
+            }
+        }
         match i {
             None => node_inputs.push(String::new()),
             Some(t) => match &t.via {
@@ -341,8 +390,9 @@ fn run_case(c: &Case) -> Result<Vec<(char, Vec<usize>, Vec<i64>)>, String> {
     for (n, a) in extra_attrs {
         node = node.attr(&n, a);
     }
+    producers.push(node);
     let g = Graph {
-        nodes: vec![node],
+        nodes: producers,
         initializers: inits,
         inputs: graph_inputs,
         outputs: out_names.iter().map(|n| ValueInfo::new(n, dt::INT32, None)).collect(),
@@ -365,7 +415,20 @@ fn run_case(c: &Case) -> Result<Vec<(char, Vec<usize>, Vec<i64>)>, String> {
     for n in &out_names {
         out_ids.push(model.node_id(n).map_err(|e| format!("node_id: {e}"))?);
     }
-    let outs = model.run(run_inputs, &out_ids, None).map_err(|e| format!("run: {e}"))?;
+    if c.owned {
+        rten::verif::exec_trace::start_trace();
+    }
+    let run_res = model.run(run_inputs, &out_ids, None);
+    if c.owned {
+        // the tested node is the last step of the top-level plan
+        use rten::verif::exec_trace::Event;
+        for ev in rten::verif::exec_trace::take_trace() {
+            if let Event::InPlace { depth: 0, run_in_place, .. } = ev {
+                *ran_in_place = Some(run_in_place);
+            }
+        }
+    }
+    let outs = run_res.map_err(|e| format!("run: {e}"))?;
     let mut res = vec![];
     for o in outs {
         match o {
@@ -858,6 +921,15 @@ fn gen_slice(rng: &mut Rng) -> Case {
             }
         })
         .collect();
+    let mut steps = steps;
+    if n >= 2 && use_steps && rng.chance(1, 3) {
+        // mixed unit / non-unit steps over several axes (in-place clipping must not ignore steps)
+        for st in steps.iter_mut() {
+            *st = 1;
+        }
+        let k = rng.usize_below(n);
+        steps[k] = *rng.pick(&[2i64, 3, -1, -2]);
+    }
     let idt = if rng.chance(1, 4) { dt::INT32 } else { dt::INT64 };
     let mk = |rng: &mut Rng, vals: Vec<i64>| -> TIn {
         let mut p = vec_param(rng, vals);
@@ -1661,6 +1733,82 @@ fn scalar_fn(op: &str, fmod: bool, x: i64, y: i64) -> Option<i64> {
     })
 }
 
+/// Independent evaluation of ONNX Slice (specification text: negative indices count from the end, clamping
+/// into [0,dim] / [0,dim-1] resp. [-1,dim-1], length = ceil). `None` = input outside the compared domain
+/// (invalid or ambiguous), `Some(None)` = output agrees, `Some(Some(msg))` = it does not.
+fn slice_oracle(c: &Case, oshape: &[usize], odata: &[i64]) -> Option<Option<String>> {
+    let x = c.inputs.first()?.as_ref()?;
+    let starts = &c.inputs.get(1)?.as_ref()?.data;
+    let ends = &c.inputs.get(2)?.as_ref()?.data;
+    let r = x.shape.len();
+    let n = starts.len();
+    if ends.len() != n {
+        return None;
+    }
+    let axes: Vec<usize> = match c.inputs.get(3).and_then(|a| a.as_ref()) {
+        Some(a) => {
+            if a.data.len() != n {
+                return None;
+            }
+            let mut v = vec![];
+            for &ax in &a.data {
+                let k = if ax < 0 { ax + r as i64 } else { ax };
+                if k < 0 || k >= r as i64 || v.contains(&(k as usize)) {
+                    return None;
+                }
+                v.push(k as usize);
+            }
+            v
+        }
+        None => {
+            if n != r {
+                return None;
+            }
+            (0..n).collect()
+        }
+    };
+    let steps: Vec<i64> = match c.inputs.get(4).and_then(|a| a.as_ref()) {
+        Some(a) => a.data.clone(),
+        None => vec![1; n],
+    };
+    if steps.len() != n || steps.iter().any(|&s| s == 0) {
+        return None;
+    }
+    // (start, step, len) per input axis, in i128 to stay clear of overflow with INT64 extremes
+    let mut per: Vec<(i128, i128, usize)> = x.shape.iter().map(|&d| (0, 1, d)).collect();
+    for j in 0..n {
+        let d = x.shape[axes[j]] as i128;
+        let (st, en, sp) = (starts[j] as i128, ends[j] as i128, steps[j] as i128);
+        let ns = if st < 0 { st + d } else { st };
+        let ne = if en < 0 { en + d } else { en };
+        if d == 0 {
+            per[axes[j]] = (0, sp, 0);
+        } else if sp > 0 {
+            let (s, e) = (ns.clamp(0, d), ne.clamp(0, d));
+            per[axes[j]] = (s, sp, ((e - s + sp - 1).div_euclid(sp)).max(0) as usize);
+        } else {
+            if st + d < 0 && ne < 0 {
+                return None; // text vs numpy ambiguity
+            }
+            let (s, e) = (ns.clamp(0, d - 1), ne.clamp(-1, d - 1));
+            per[axes[j]] = (s, sp, ((s - e + (-sp) - 1).div_euclid(-sp)).max(0) as usize);
+        }
+    }
+    let want_shape: Vec<usize> = per.iter().map(|p| p.2).collect();
+    if oshape != want_shape.as_slice() {
+        return Some(Some(format!("Slice output shape {oshape:?}, ONNX gives {want_shape:?}")));
+    }
+    let xs: Vec<usize> = (0..r).map(|k| x.shape[k + 1..].iter().product()).collect();
+    for lin in 0..odata.len() {
+        let idx = unravel(lin, &want_shape);
+        let off: usize = (0..r).map(|k| ((per[k].0 + idx[k] as i128 * per[k].1) as usize) * xs[k]).sum();
+        if x.data[off] != odata[lin] {
+            return Some(Some(format!("Slice element {idx:?} is {} but the selected input element is {}", odata[lin], x.data[off])));
+        }
+    }
+    Some(None)
+}
+
 type OutT = (char, Vec<usize>, Vec<i64>);
 
 fn oracle(c: &Case, outs: &[OutT]) -> Option<String> {
@@ -1718,6 +1866,7 @@ fn oracle(c: &Case, outs: &[OutT]) -> Option<String> {
             }
             None
         }
+        "Slice" if slice_oracle(c, oshape, odata).is_some() => slice_oracle(c, oshape, odata).unwrap(),
         "Slice" | "Gather" | "GatherElements" | "GatherND" | "Transpose" | "Expand" | "Tile" | "Concat" | "Split" | "DepthToSpace" => {
             let mut pool: Vec<i64> = ins.iter().filter(|t| t.dtype != dt::INT64 || true).flat_map(|t| t.data.iter().cloned()).collect();
             if matches!(c.op, "Slice" | "Gather" | "GatherElements" | "GatherND" | "Expand" | "Tile" | "Split") {
@@ -1960,7 +2109,19 @@ static PANIC_LOC: std::sync::Mutex<String> = std::sync::Mutex::new(String::new()
 fn do_case(out: &mut Out, dbg: &mut Option<std::fs::File>, fam: &str, c: &Case) {
     use std::io::Write;
     let req = c.request();
-    let res = hcommon::catch(|| run_case(c));
+    let mut ran_in_place = None;
+    let res = hcommon::catch(|| run_case(c, &mut ran_in_place));
+    if c.owned {
+        out.bucket("owned_variant");
+        match ran_in_place {
+            Some(true) => {
+                out.bucket("owned_variant_ran_in_place");
+                out.bucket(&format!("in_place:{}", c.op));
+            }
+            Some(false) => out.bucket("owned_variant_not_in_place"),
+            None => out.bucket("owned_variant_no_run"),
+        }
+    }
     if let Some(f) = dbg {
         let m = match &res {
             Ok(Ok(_)) => "ok".to_string(),
@@ -2083,7 +2244,7 @@ fn main() {
     }
     let mut dbg = std::env::var_os("C15_DEBUG").map(|_| std::fs::File::create(format!("{}/dbg.txt", args.out)).unwrap());
     let total: u64 = GENS.iter().map(|g| g.2).sum();
-    let n_cases = if args.thorough { 400_000 } else { 40_000 };
+    let n_cases = if args.thorough { 250_000 } else { 25_000 };
     let mut all_reqs: Vec<(&'static str, String)> = Vec::with_capacity(n_cases);
     for _ in 0..n_cases {
         let mut pickv = rng.below(total);
@@ -2099,6 +2260,14 @@ fn main() {
         c.optimize = rng.chance(3, 4);
         all_reqs.push((c.op, c.request()));
         do_case(&mut out, &mut dbg, chosen.0, &c);
+        // the same case with every tensor input produced by an executor-owned intermediate
+        if c.inputs.iter().flatten().any(|t| matches!(t.via, Via::Run | Via::Init)) {
+            c.owned = true;
+            c.own_kind = rng.below(2) as u8;
+            c.optimize = rng.chance(1, 2);
+            all_reqs.push((c.op, c.request()));
+            do_case(&mut out, &mut dbg, chosen.0, &c);
+        }
     }
     skip_rates(&mut out, &args.out, &all_reqs);
     out.note("single-operator ONNX models through ModelOptions::with_all_ops().load + Model::run; integer/bool operators only");
